@@ -119,7 +119,11 @@ def hSysU : Handler := fun impl => do
   let decodedPath ← pBytes
   let script ← pList pOrigin
   if ¬ rcs.all (·.valid) then return { model := "err:rules", label := "rules-rejected" }
-  if flag ≠ 1 then
+  if flag = 4 then
+    -- rrrouter's own matched string (completeURL → destinationString → url.Parse) is not the
+    -- scheme / port-less host / request-target of the request: the model is run on the latter
+    pure ()
+  else if flag ≠ 1 then
     -- net/http rejected the request, or the matched string could not be built: outside slice S1
     return { model := " ".intercalate (impl.takeWhile (· ≠ "||")), label := "outside-S1:flag" }
   let rs := rcs.map (·.rule)
@@ -179,6 +183,9 @@ def hSysU : Handler := fun impl => do
       let bad :=
         (if holdsC01 rs retryHostsOf q o.view o.contacts then [] else ["bad:C01:wrong-destination-or-missing-404"]) ++
         (if holdsC03Body req o.contacts then [] else ["bad:C03:method-or-body-not-intact"]) ++
+        (let allRules : List Rule := rcs.flatMap fun rc => rc.rule :: rc.retry
+         let ruleOfHost (h : Bytes) : Option Bool := (allRules.find? fun r => hostOfDest r.dest == h).map (·.internal)
+         if holdsC04 ruleOfHost secretsNil secrets o.contacts then [] else ["bad:C04:internal-headers-wrong-for-destination-class"]) ++
         (if faulted then [] else
           (if holdsC05Plain req.method final o.view blobTok then [] else ["bad:C05:status-body-or-error-shape"]) ++
           (match final with
